@@ -137,7 +137,8 @@ def run(ctx: Ctx) -> None:
             if how == "separate":
                 for plugin in ("python", "rust"):
                     # the last of the separate runs happens "elsewhere": other day/user/machine, other directory-entry order
-                    spelling = "elsewhen" if inv_i == len(seeds) - 1 else "default"
+                    # ... and the first one under `python -O`
+                    spelling = "elsewhen" if inv_i == len(seeds) - 1 else ("optimised" if inv_i == 0 else "default")
                     r = gen.run_generator(plugin, os.path.join(d, plugin), hashseed=hs, spelling=spelling)
                     if r.returncode != 0:
                         ctx.finding(("plugin-failed", plugin, "committed-model"), (r.stderr or r.stdout)[-400:], {"plugin": plugin, "hashseed": hs})
